@@ -162,6 +162,7 @@ def register(reg):
         else:
             base.update(chars=it.fresh_str(tag + '.chars'))
             n = new_obj(it, NODES + 'LatexCharsNode', base, tag=tag, is_input=False)
+        it.ctx.ghost.setdefault('skipped_all', []).append(n)
         return n
 
     def make_err(it, env, cls):
@@ -175,6 +176,7 @@ def register(reg):
         """the expression itself: one node (seen from LatexExpressionParser.parse); in tolerant mode possibly nothing at all
         (end of input where an expression was expected)"""
         if it.ctx.choose(2, 'the single-token step found an expression') == 1:
+            it.ctx.ghost['no_expression_found'] = True
             return PyList([])
         p = it.ctx.fresh_int('expr.pos')
         e = it.ctx.fresh_int('expr.pos_end')
@@ -312,6 +314,20 @@ def register(reg):
         elif isinstance(result, Obj) and result.cls.name == 'LatexGroupNode' and isinstance(result.fields.get('nodelist'), Obj):
             have = list(result.fields['nodelist'].fields['nodelist'].items)
         return all(any(h is w for h in have) for w in want)
+    @reg.spec('skipped_nodes_handed_back_at_the_end_of_input')
+    def skipped_nodes_handed_back(it, parser, result):
+        """the input ended where the expression was expected: what was skipped on the way is what is handed back (all of it in
+        a full node list, otherwise its last node, as for a found expression) -- it is not thrown away"""
+        if not it.ctx.ghost.get('no_expression_found'):
+            return True
+        sk = it.ctx.ghost.get('skipped_all', [])
+        if not sk:
+            return True
+        have = list(result.fields['nodelist'].items) if isinstance(result, Obj) and result.cls.name == 'LatexNodeList' else []
+        full = it.truth_term(parser.fields['return_full_node_list'])
+        all_of_it = len(have) == len(sk) and all(h is w for h, w in zip(have, sk))
+        return z_or(z_and(full, all_of_it), z_and(z_not(full), result is sk[-1]))
+
     reg.add_loop(LoopContract(EXPR + '.parse', 0, invariant=[('reader-in-range', '0 <= %s and %s <= len(token_reader.s)' % (RDP, RDP))], havoc={'exprnodes': mk_skipped_so_far, 'moreexprnodes': 'none',
                                                                        'thenodelist': 'none', 'result': 'none', 'e': 'none'},
                               havoc_fields=['token_reader._pos', 'latex_walker._line_no_calc'],
@@ -322,7 +338,9 @@ def register(reg):
                   ('reader-and-walker-share-the-string', 'token_reader.s == latex_walker.s'),
                   ('reader-and-walker-agree-on-tolerant-mode', 'token_reader.tolerant_parsing == latex_walker.tolerant_parsing'),
                   ('context-database-invariant', 'db_inv(parsing_state.latex_context)')],
-        ensures=[('internal:comments-read-on-the-way-to-the-expression-stay-in-the-tree', 'keeps_skipped_comments(result[0])')],
+        ensures=[('internal:comments-read-on-the-way-to-the-expression-stay-in-the-tree', 'keeps_skipped_comments(result[0])'),
+                 ('internal:nodes-skipped-before-the-end-of-the-input-are-handed-back',
+                  'skipped_nodes_handed_back_at_the_end_of_input(self, result[0])')],
         raises={EXC + 'LatexWalkerNodesParseError': {'ensures': [LOC]}, EXC + 'LatexWalkerParseError': {'ensures': [LOC]}},
         modifies=[('token_reader._pos', 'int'), ('latex_walker._line_no_calc', lambda it, hint, cur=None: cur)])
     c_expr_tot = Contract(
